@@ -288,6 +288,16 @@ func GenC16Session(seed uint64) *Scenario {
 	n := rng.Range(3, 7)
 	for s := 0; s < n; s++ {
 		posCmd, root := genPosition(rng, 3)
+		if rng.Intn(60) == 0 {
+			// a very long (but legal) game: more plies than any real game has
+			// (beyond the engine's documented capacity of 512 plies: the engine
+			// may refuse it, but must not crash - treated like a damaged line)
+			p := rules.MustFen(rules.StartFen)
+			ms := Playout(p, rng.Range(500, 700), rng)
+			st := add(gapAfterResult(rng), "damaged", "position startpos moves "+strings.Join(ms, " "))
+			st.Orig, st.Fault = "position startpos", "F7_overlong_game"
+			probe()
+		}
 		if strings.HasPrefix(posCmd, "position startpos") && rng.Chance(0.5) {
 			posCmd = strings.Replace(posCmd, "position startpos", "position fen "+rules.StartFen, 1)
 		}
